@@ -364,6 +364,39 @@ def main(argv):
     c.cov["traces_validated_against_impl"] += len(tcases)
     c.sample({"tool_case": tlines[3][:200]})
 
+    # ---------------- the width option: every decimal number a size_t holds is a width; anything else a usage error
+    wstrs = ["1", "7", "007", "80", "2147483647", "2147483648", "3000000000", "4294967295", "4294967296", "4294967297", "1000000000000",
+             "9223372036854775807", "9223372036854775808", "18446744073709551615", "18446744073709551616", "99999999999999999999999",
+             "-1", "-5", "abc", "5x", "", "+7", " 7", "0x10", "1e3"]
+    winp = b"ab cd, ef\n" + u8("\u00e9\u20ac \U0001F600") + b"\n\nlast"
+    wl = ["TW %s 1 %s id %s" % (hx(w.encode()), dl([58, 44, 32, 45, 46, 47]), hx(winp)) for w in wstrs]
+    wm = None
+    if drv is not None:
+        rc, wm, err = run_lines(drv, wl)
+        if len(wm) != len(wl):
+            c.broken.append("model driver died on width option cases: " + err[-200:])
+            wm = None
+    for i, w in enumerate(wstrs):
+        st, so, se = run_limited([tool, "-w", w, os.path.join(CHILDREN, "child_id.py")], stdin=winp, timeout=10, mem_mb=2048)
+        valid = w.isdigit() and w.isascii() and int(w) < 2 ** 64
+        c.count(("width-option", w), nontrivial=True, bucket="width-option/" + ("number" if valid else "not-a-number"))
+        rep = {"op": "tool", "argv": ["-w", w, "child_id.py"], "stdin": winp.decode("utf-8"), "status": st, "stdout_hex": hx(so),
+               "stderr": se.decode("utf-8", "replace")[-300:], "how": "printf '<stdin>' | foldfilter -w '%s' child_id.py" % w}
+        if valid and int(w) >= 1:
+            if st != 0 or so != winp + b"\n":
+                c.violation("width-option: -w %s is a valid width (>= every line length here) but foldfilter ended with status %s%s" % (
+                    w, st, "" if st != 0 else " and changed the text"), rep)
+        elif not valid:
+            if st == 0 or (isinstance(st, int) and st < 0) or st == "timeout" or st >= 128:
+                c.violation("width-option: -w %r is not a number a size_t holds; expected a usage error, got status %s%s" % (
+                    w, st, " (width silently replaced)" if st == 0 else ""), rep)
+        if wm is not None:
+            m = wm[i]
+            agree = (m == "USAGE" and st not in (0, "timeout") and isinstance(st, int) and 0 < st < 128) or (m == "OK " + hx(so) and st == 0)
+            if not agree:
+                c.broken.append("correspondence foldfilter_cli model vs bin/foldfilter -w %r: model %s, tool status %s stdout %s" % (w, m[:80], st, hx(so)[:80]))
+    c.cov["traces_validated_against_impl"] += len(wstrs)
+
     return c.finish(level="proof",
                     rule="wrap_lines: every line over {a, e-acute, euro sign, U+1F600, space, middle dot} up to length %d x widths 1-6 x both -s modes x both delimiter preference orders; random lines of 1-4 byte code points (incl. CR, U+FFFD, U+10FFFF) with delimiter runs, widths around the line length, 7 delimiter lists incl. empty and multi-byte; malformed UTF-8 lines; tool level: bin/foldfilter x option sets x identity/bracketing/upper-casing children on multi-line inputs incl. empty lines, CR, no final newline. distinct = distinct non-empty inputs" % (5 if quick else 6),
                     assumptions=["lines shorter than 2^31 bytes (pos_first_delimiter is an int32_t)",
